@@ -21,17 +21,40 @@ END_GROUP = ("ENDAGG", "END_GROUP", "G")
 END_OBJECT = ("ENDAGG", "END_OBJECT", "O")
 END = ("END", "END", None)
 COMMENT = ("COMMENT", "/*c*/", None)
+# lexically damaged tokens: an unterminated quoted string / units expression
+# swallows the rest of the text unless a later token happens to close it
+BADQ = ("BADQ", '"s', None)
+BADU = ("BADU", "<m", None)
 
 ALPHABET18 = [A, B, EQ, ONE, QS, LP, RP, LB, RB, COMMA, SEMI, UNITS,
               GROUP, OBJECT, END_GROUP, END_OBJECT, END, COMMENT]
+ALPHABET20 = ALPHABET18 + [BADQ, BADU]
 # a core for longer sequences: one name, the structural tokens, one block kind
-ALPHABET11 = [A, EQ, ONE, LP, RP, COMMA, SEMI, UNITS, GROUP, END_GROUP, END]
+ALPHABET11 = [A, EQ, ONE, LP, RP, COMMA, SEMI, UNITS, GROUP, END_GROUP, END, BADU]
 
 MODE = {"PVL": "pvl", "ODL": "odl", "PDS3": "odl", "ISIS": "pvl", "OMNI": "pvl"}
 
 
 def render(seq, sep=" "):
     return sep.join(t[1] for t in seq)
+
+
+_TIGHT = ("EQ", "COMMA", "LP", "RP", "LB", "RB", "SEMI")
+
+
+def render_compact(seq):
+    """No white space wherever the grammar makes it optional (around '=', ',',
+    brackets, ';', before units); one space elsewhere."""
+    out = []
+    for i, t in enumerate(seq):
+        if i > 0:
+            left = seq[i - 1]
+            tight = left[0] in _TIGHT or t[0] in _TIGHT or t[0] in ("UNITS", "BADU")
+            if left[0] in ("BADQ", "BADU", "COMMENT") or t[0] == "COMMENT":
+                tight = False
+            out.append("" if tight else " ")
+        out.append(t[1])
+    return "".join(out)
 
 
 def tree_canon(items, cls="PVLModule"):
